@@ -108,7 +108,8 @@ fn long_arith(m: &MDesc, len: u64, total: usize, seed: u64, grid_only: bool, r: 
 						let tol = if exact_grid { 16.0 * C * EPS * s * (n as f64 + 8.0) } else { 2.0 * radius(m.class, n as f64, t as f64, s, 8.0) } + f64::MIN_POSITIVE;
 						let tol = if m.name == "StDev" { 2.0 * radius(Class::Accum, n as f64, t as f64, 2.0 * mag * mag, 8.0).sqrt() } else { tol };
 						let tol = if matches!(m.name, "CCI" | "RateOfChange" | "VWMA") { tol.max(64.0 * EPS.sqrt() * s.max(1.0)) } else { tol };
-						if !((a - b).abs() <= tol || (a.is_nan() && b.is_nan())) && worst.is_none() {
+						// equal bit patterns (incl. two infinities of one sign: a Conv kernel whose weights sum to zero divides by zero) agree
+						if !((a - b).abs() <= tol || (a.is_nan() && b.is_nan()) || a.to_bits() == b.to_bits()) && worst.is_none() {
 							worst = Some((j, a, b));
 						}
 					}
